@@ -799,6 +799,35 @@ def rule_r17(prog, res):
     res.floor('R17', 'XmlData loops in complex_add', m, 1)
 
 
+def rule_r18(prog, res):
+    res.rule('R18', 'the class dictionaries that pick the schema handler of a '
+             'class resolve it through the method resolution order (closest '
+             'ancestor first), not base by base with the entry for object as '
+             'a fallback of every plain mixin')
+    c = prog.cls('spyne.util.cdict:cdict')
+    f = c.methods.get('__getitem__')
+    if f is None:
+        raise AnalysisError('cdict.__getitem__', 'not found')
+    loops = [lp for lp in walk_no_defs(f.node) if isinstance(lp, ast.For)]
+    res.floor('R18', 'ancestor loops in cdict.__getitem__', len(loops), 1)
+    for lp in loops:
+        it = unparse(lp.iter)
+        by_mro = '__mro__' in it or 'mro()' in it
+        by_bases = '__bases__' in it and not by_mro
+        where = '%s:%d' % (f.module.relpath, lp.lineno)
+        res.ob('R18', where, 'cdict.__getitem__ walks %s' % it,
+               'VIOLATED' if by_bases else 'ok')
+        if by_bases:
+            res.finding('R18', 'cdict.__getitem__|base-by-base', where,
+                        'the lookup recurses into the direct bases (%s): the '
+                        'handler tables of the schema generator have an entry '
+                        'for object, so a plain Python mixin among the bases '
+                        'of a model answers with that no-op and class '
+                        'Item(ComplexModel, Helper) (or Helper first, '
+                        'depending on the direction) gets no complexType '
+                        'while its users still refer to it' % it)
+
+
 def run(prog, res, tier):
     res.run_rule(rule_r1, prog, res)
     res.run_rule(rule_r2, prog, res)
@@ -817,12 +846,17 @@ def run(prog, res, tier):
     res.run_rule(rule_r15, prog, res)
     res.run_rule(rule_r16, prog, res)
     res.run_rule(rule_r17, prog, res)
+    res.run_rule(rule_r18, prog, res)
 
 
 _M = 'spyne/interface/xml_schema/model.py'
 _I = 'spyne/interface/_base.py'
 
 MUTANTS = [
+    Mutant('cdict-base-by-base', 'R18', 'fire', 'spyne/util/cdict.py',
+           in_func('cdict.__getitem__',
+                   "for b in getattr(cls, '__mro__', ())[1:]:",
+                   "for b in cls.__bases__:"), 'base-by-base'),
     Mutant('choice-groups-after-members', 'R17', 'fire', _M,
            in_func('complex_add',
                    "            if a.xml_choice_group not in choice_tags:\n"
